@@ -16,14 +16,17 @@ CONSTANTS MaxStmts, MaxRows, MaxFlush, MaxCrash, MaxEvict, EmitOn,
           DmlTables,   \* tables that INSERT/UPDATE/DELETE address (a subset of Tables, to focus a configuration)
           Ops          \* statement kinds explored: subset of {"create", "insert", "update", "delete"}
 
-VARIABLES cnt, hist
+VARIABLES cnt, hist,
+          fails    \* kinds of statements refused so far on this path.  A refused statement changes nothing in the specification,
+                   \* so without this ghost every path through one is merged (VIEW) with the first one found, and only that
+                   \* one is ever continued: the ghost keeps one continuing path per kind of refusal
 
 \* (TLC's configuration files cannot spell negative numbers, hence the mode names)
 BadVals == CASE BadMode = "none" -> {}
              [] BadMode = "type-size" -> {-1, -2}
              [] BadMode = "count-range" -> {-3, -4}
              [] BadMode = "all" -> {-1, -2, -3, -4}
-mcVars == <<disk, dhdr, cache, mhdr, walD, torn, walU, pc, abs, pend, cands, taint, scope, out, cnt, hist>>
+mcVars == <<disk, dhdr, cache, mhdr, walD, torn, walU, pc, abs, pend, cands, taint, scope, out, cnt, hist, fails>>
 
 RowSeqs == UNION {[1..n -> Vals \cup BadVals] : n \in 1..MaxRows}
 \* at most one invalid row per statement (enough for "the k-th row is the invalid one, for every k");
@@ -34,33 +37,34 @@ OneBad(rows) == /\ Cardinality({i \in 1..Len(rows) : rows[i] < 0}) <= 1
 H(step) == hist' = Append(hist, step)
 Bump(f) == cnt' = [cnt EXCEPT ![f] = @ + 1]
 
-MCInit == Init /\ cnt = [st |-> 0, fl |-> 0, cr |-> 0, ev |-> 0] /\ hist = <<>>
+MCInit == Init /\ cnt = [st |-> 0, fl |-> 0, cr |-> 0, ev |-> 0] /\ hist = <<>> /\ fails = {}
+Refused(kind) == fails' = IF out'.k = "error" THEN fails \cup {kind} ELSE fails
 
 \* nothing further is explored after a known-defective situation: what follows it is not judged anyway
 StmtOK == pc.k = "idle" /\ cnt.st < MaxStmts /\ taint = {}
 
 MCNext ==
   \/ /\ StmtOK /\ "create" \in Ops /\ \E t \in Tables, bad \in (IF BadVals = {} THEN {FALSE} ELSE BOOLEAN) :
-          CreateStmt(t, bad) /\ H([a |-> "create", t |-> t, bad |-> bad]) /\ Bump("st")
+          CreateStmt(t, bad) /\ H([a |-> "create", t |-> t, bad |-> bad]) /\ Bump("st") /\ Refused(<<IF bad THEN "create-bad" ELSE "create", t>>)
   \/ /\ StmtOK /\ "insert" \in Ops /\ \E t \in DmlTables, rows \in RowSeqs :
-          OneBad(rows) /\ InsertStmt(t, rows) /\ H([a |-> "insert", t |-> t, rows |-> rows]) /\ Bump("st")
+          OneBad(rows) /\ InsertStmt(t, rows) /\ H([a |-> "insert", t |-> t, rows |-> rows]) /\ Bump("st") /\ Refused(<<"insert", t>>)
   \/ /\ StmtOK /\ "update" \in Ops /\ \E t \in DmlTables, w \in Wheres, v \in (Vals \ {9}) \cup (BadVals \cap {-1, -2}) :
-          UpdateStmt(t, w, v) /\ H([a |-> "update", t |-> t, w |-> w, v |-> v]) /\ Bump("st")
+          UpdateStmt(t, w, v) /\ H([a |-> "update", t |-> t, w |-> w, v |-> v]) /\ Bump("st") /\ Refused(<<"update", t>>)
   \/ /\ StmtOK /\ "delete" \in Ops /\ \E t \in DmlTables, w \in Wheres :
-          DeleteStmt(t, w) /\ H([a |-> "delete", t |-> t, w |-> w]) /\ Bump("st")
+          DeleteStmt(t, w) /\ H([a |-> "delete", t |-> t, w |-> w]) /\ Bump("st") /\ Refused(<<"delete", t>>)
   \/ /\ cnt.fl < MaxFlush /\ taint = {} /\ (cache # <<>> \/ dhdr # mhdr)
-     /\ FlushBegin /\ H([a |-> "flush"]) /\ Bump("fl")
-  \/ /\ cnt.ev < MaxEvict /\ taint = {} /\ EvictAll /\ H([a |-> "evict"]) /\ Bump("ev")
-  \/ /\ \E p \in pc.todo : FlushPage(p) /\ UNCHANGED <<cnt, hist>>
-  \/ /\ FlushHdr /\ UNCHANGED <<cnt, hist>>
-  \/ /\ WalStep /\ UNCHANGED <<cnt, hist>>
+     /\ FlushBegin /\ H([a |-> "flush"]) /\ Bump("fl") /\ UNCHANGED fails
+  \/ /\ cnt.ev < MaxEvict /\ taint = {} /\ EvictAll /\ H([a |-> "evict"]) /\ Bump("ev") /\ UNCHANGED fails
+  \/ /\ \E p \in pc.todo : FlushPage(p) /\ UNCHANGED <<cnt, hist, fails>>
+  \/ /\ FlushHdr /\ UNCHANGED <<cnt, hist, fails>>
+  \/ /\ WalStep /\ UNCHANGED <<cnt, hist, fails>>
   \/ /\ cnt.cr < MaxCrash
      /\ \E keep \in BOOLEAN :
           /\ Crash(keep)
           /\ H([a |-> "crash", at |-> pc.k, during |-> pc.after, i |-> pc.i, sub |-> pc.sub, keep |-> keep,
                  written |-> SetToSortSeq(pc.orig \ pc.todo, <), orig |-> SetToSortSeq(pc.orig, <), hdr |-> FALSE])
-     /\ Bump("cr")
-  \/ /\ Recover /\ H([a |-> "recover"]) /\ UNCHANGED cnt
+     /\ Bump("cr") /\ UNCHANGED fails
+  \/ /\ Recover /\ H([a |-> "recover"]) /\ UNCHANGED <<cnt, fails>>
 
 \* ---- what is printed
 PageIds(c, d) == SetToSortSeq((DOMAIN c) \cup (DOMAIN d), <)
@@ -113,5 +117,5 @@ Emit == (EmitOn /\ out'.k # "none" /\ Selected /\ (EmitMod = 1 \/ RandomElement(
                                            ELSE Healthy(cache', disk', mhdr', abs'),
                                   scope |-> scope'])>>)
 
-View == <<disk, dhdr, cache, mhdr, walD, torn, walU, pc, abs, pend, cands, taint, scope, cnt>>
+View == <<disk, dhdr, cache, mhdr, walD, torn, walU, pc, abs, pend, cands, taint, scope, cnt, fails>>
 =============================================================================
